@@ -11,50 +11,24 @@ Fixpoint cnf (e : expr) : Prop :=
   | EBin o l r => cnf l /\ cnf r /\ (o = BComma -> not_comma r)
   | ECond c y n => cnf c /\ cnf y /\ cnf n
   | EIndex t i => cnf t /\ cnf i
+  | ECall f a | ENew f a => cnf f /\ cnf a
+  | ACons x r => cnf x /\ cnf r
   | _ => True
   end.
 
 Lemma not_comma_norm r : not_comma r -> not_comma (norm r).
 Proof.
-  destruct r as [s|s|b f|t s|u v|o a b|c0 y0 n0|t0 i0]; simpl; auto.
+  destruct r as [s|s|b f|t s|u v|o a b|c0 y0 n0|t0 i0|f0 a0|f0 a0| |x0 r0]; simpl; auto.
   destruct (op_eqb o BComma) eqn:E; [destruct o; try discriminate; intros []|].
   intros _. destruct o; try discriminate; exact I.
 Qed.
 Lemma comma_app_plain l r : not_comma r -> comma_app l r = EBin BComma l r.
-Proof. destruct r as [s|s|b f|t s|u v|o a b|c0 y0 n0|t0 i0]; simpl; auto. destruct o; auto. intros []. Qed.
+Proof. destruct r as [s|s|b f|t s|u v|o a b|c0 y0 n0|t0 i0|f0 a0|f0 a0| |x0 r0]; simpl; auto. destruct o; auto. intros []. Qed.
 Lemma norm_bin o l r : (o = BComma -> not_comma r) -> norm (EBin o l r) = EBin o (norm l) (norm r).
 Proof.
   intro H. simpl. destruct (op_eqb o BComma) eqn:E; [|reflexivity].
   assert (o = BComma) by (destruct o; try discriminate; reflexivity). subst o.
   apply comma_app_plain. apply not_comma_norm. auto.
-Qed.
-
-Definition Gen (e : expr) : Prop :=
-  forall P L rest res, 0 <= P -> L < S_Update -> lv_ok L P e -> fol P rest = true ->
-    PSx L (norm e) (ll_of P e) rest res -> PEx L (toks (print_items P e) ++ rest) res.
-Definition Unw (e : expr) : Prop :=
-  forall P L rest res, 0 <= P -> P < lvl e -> L < S_Update -> lv_ok L P e -> fol P rest = true ->
-    PSx L (norm e) (lvl e) rest res -> PEx L (toks (body e) ++ rest) res.
-
-Lemma compound_lvl e : compound e = true -> 1 <= lvl e.
-Proof. destruct e; simpl; intro H; try discriminate; apply op_level_pos. Qed.
-
-Lemma gen_of_unw e : compound e = true -> Unw e -> Gen e.
-Proof.
-  intros Hc U P L rest res HP HL Hlv Hf Hs.
-  rewrite print_items_split. unfold ll_of in Hs. destruct (wrapped P e) eqn:W.
-  - rewrite !toks_app, <- !app_assoc. change (toks [IOpen]) with [TP [40]]. change (toks [IClose]) with [TP [41]].
-    simpl app.
-    destruct open_tok as (O1 & O2 & O3). destruct close_tok as (C1 & C2 & C3 & C4).
-    apply (E_paren L (TP [40]) _ (norm e) (TP [41]) rest res O1 O2 O3); [|exact C4|exact Hs].
-    pose proof (compound_lvl e Hc) as Hl.
-    apply (U 0 0); try lia.
-    + unfold S_Update. lia.
-    + destruct e; simpl; auto; right; [pose proof (op_level_pos o); lia | unfold LConditional, LYield; lia].
-    + reflexivity.
-    + apply S_stop. reflexivity.
-  - unfold wrapped in W. rewrite Hc in W. simpl in W. rewrite Z.geb_leb in W. apply Z.leb_gt in W.
-    apply (U P L); assumption.
 Qed.
 
 Lemma pre_level o : op_kind o = KPre -> op_level o = S_Unary.
@@ -63,7 +37,6 @@ Lemma post_level o : op_kind o = KPost -> op_level o = S_Update /\ is_update o =
 Proof. destruct o; intro H; try discriminate; split; reflexivity. Qed.
 Lemma bin_level o : op_kind o = KBin -> op_level o <= 17 /\ right_level o <= 17 /\ 0 <= lpl o.
 Proof. destruct o; intro H; try discriminate; vm_compute; repeat split; discriminate. Qed.
-
 Lemma fol_bin o P r : op_kind o = KBin -> fol P (op_tok o :: r) = (lpl o <=? P).
 Proof. destruct o; intro H; try discriminate; reflexivity. Qed.
 Lemma fol_post o P r : op_kind o = KPost -> fol P (op_tok o :: r) = (LPrefix <=? P).
@@ -71,73 +44,168 @@ Proof. destruct o; intro H; try discriminate; reflexivity. Qed.
 Lemma low_ops_stop o : op_kind o = KBin -> lpl o <= LYield -> spec_level o <=? 3 = true.
 Proof. destruct o; intro H; try discriminate; vm_compute; intro H2; try reflexivity; exfalso; apply H2; reflexivity. Qed.
 
-Lemma target_shape v : is_target v = true -> compound v = false /\ lvl v = S_Member.
-Proof. destruct v; simpl; intro H; try discriminate; split; reflexivity. Qed.
+Section WithMode.
+Variable mw : bool.
+Local Notation print_items := (Token.print_items mw).
+Local Notation ll_of := (PrintParse.ll_of mw).
+Local Notation strat := (PrintParse.strat mw).
+Local Notation body := (PrintParse.body mw).
+Local Notation new_parens := (PrintParse.new_parens mw).
 
-Lemma wrapped19 t : compound t = true -> wrapped LPostfix t = true.
+(* HL: the loop level is below the call level, except while parsing the callee of "new"
+   (printed at LNew, parsed with strength S_Call) *)
+Definition Gen (e : expr) : Prop :=
+  forall P L rest res, 0 <= P -> (L < S_Call \/ P = LNew) -> L <= S_Call -> lv_ok L P e -> fol P rest = true ->
+    PSx L (norm e) (ll_of P e) rest res -> PEx L (toks (print_items P e) ++ rest) res.
+Definition Unw (e : expr) : Prop :=
+  forall Pb P L rest res, 0 <= P -> P < lvl e -> (forall f a, e = ENew f a -> P = Pb \/ LPostfix <= Pb) ->
+    (L < S_Call \/ P = LNew) -> L <= S_Call -> lv_ok L P e -> fol P rest = true ->
+    PSx L (norm e) (strat Pb e) rest res -> PEx L (toks (body Pb e) ++ rest) res.
+Definition GenArgs (a : expr) : Prop :=
+  forall rest, PAx (toks (print_items LComma a) ++ TP [41] :: rest) (norm a, rest).
+
+Lemma compound_lvl e : compound e = true -> 1 <= lvl e <= LCall.
 Proof.
-  intro Hc. unfold wrapped. rewrite Hc. simpl. rewrite Z.geb_leb. apply Z.leb_le.
-  destruct t as [| | | |u w|o2 a b2|c0 y0 n0|]; try discriminate; simpl;
-    [pose proof (op_level_pos u) | pose proof (op_level_pos o2)]; unfold LPostfix; lia.
+  destruct e; simpl; intro H; try discriminate; try (pose proof (op_level_pos o)); unfold LConditional, LNew, LCall; lia.
 Qed.
-Lemma target19 L t : lv_ok L LPostfix t /\ S_Member <=? ll_of LPostfix t = true.
+
+Lemma lv_ok_low e : lv_ok 0 0 e /\ lv_ok 3 LYield e /\ lv_ok 3 LComma e.
 Proof.
-  destruct (compound t) eqn:Ec.
-  - pose proof (wrapped19 t Ec) as W. split.
-    + destruct t; simpl; auto.
-    + unfold ll_of. rewrite W. reflexivity.
-  - split; [destruct t; try discriminate; exact I|].
-    unfold ll_of, wrapped. rewrite Ec. simpl. rewrite (lvl_atom t Ec). reflexivity.
-Qed.
-Lemma operand17 L t : wf t -> lv_ok L (LPrefix - 1) t.
-Proof.
-  intro Hw. destruct t as [| | | |u w|o2 a b2|c0 y0 n0|]; simpl; auto; left; unfold wrapped; simpl; rewrite Z.geb_leb; apply Z.leb_le.
-  destruct Hw as (_ & _ & Hk & _). destruct (bin_level o2 Hk) as (Hle & _). unfold LPrefix. lia.
-Qed.
-Lemma lv_ok_low e : lv_ok 0 0 e /\ lv_ok 3 LYield e.
-Proof.
-  destruct e as [| | | |u w|o2 a b2|c0 y0 n0|]; simpl; auto; split.
+  destruct e as [| | | |u w|o2 a b2|c0 y0 n0| |f0 a0| | |]; simpl; auto; repeat split;
+    try (right; unfold S_Update, S_Call; lia).
   - right. pose proof (op_level_pos o2). lia.
   - destruct (LYield >=? op_level o2) eqn:E; [left; unfold wrapped; simpl; exact E|]. right.
     rewrite Z.geb_leb in E. apply Z.leb_gt in E. unfold LYield in E. lia.
+  - destruct (LComma >=? op_level o2) eqn:E; [left; unfold wrapped; simpl; exact E|]. right.
+    rewrite Z.geb_leb in E. apply Z.leb_gt in E. unfold LComma in E.
+    assert (op_level o2 <> 2 /\ op_level o2 <> 3) by (destruct o2; vm_compute; split; discriminate). lia.
   - right. unfold LConditional, LYield. lia.
   - right. unfold LConditional, LYield. lia.
+  - right. unfold LConditional, LYield, LComma. lia.
+Qed.
+
+Lemma gen_of_unw e : compound e = true -> Unw e -> Gen e.
+Proof.
+  intros Hc U P L rest res HP HL HL2 Hlv Hf Hs.
+  rewrite print_items_split. unfold PrintParse.ll_of in Hs. destruct (wrapped P e) eqn:W.
+  - rewrite !toks_app, <- !app_assoc. change (toks [IOpen]) with [TP [40]]. change (toks [IClose]) with [TP [41]].
+    simpl app.
+    destruct open_tok as (O0 & O1 & O2 & O3). destruct close_tok as (C1 & C2 & C3 & C4).
+    apply (E_paren L (TP [40]) _ (norm e) (TP [41]) rest res O0 O1 O2 O3); [|exact C4|exact Hs].
+    pose proof (compound_lvl e Hc) as Hl.
+    apply (U P 0 0); try lia.
+    + intros f a E. subst e. right. unfold wrapped in W. simpl in W. rewrite Z.geb_leb in W. apply Z.leb_le in W.
+      unfold LPostfix, LCall in *. lia.
+    + left. unfold S_Call. lia.
+    + unfold S_Call. lia.
+    + apply lv_ok_low.
+    + reflexivity.
+    + apply S_stop. reflexivity.
+  - unfold wrapped in W. rewrite Hc in W. simpl in W. rewrite Z.geb_leb in W. apply Z.leb_gt in W.
+    apply (U P P L); try assumption. intros f a _. left. reflexivity.
+Qed.
+
+Lemma target_shape v : is_target v = true -> compound v = false /\ strat 0 v = S_Member.
+Proof. destruct v; simpl; intro H; try discriminate; split; reflexivity. Qed.
+
+(* what a member access / call is applied to: printed at LPostfix, or at LNew under the isNewTarget flag *)
+Lemma targetT L T t : (T = LPostfix /\ L < S_Call) \/ T = LNew -> lv_ok L T t /\ S_Call <=? ll_of T t = true.
+Proof.
+  intro HT. split.
+  - destruct t as [| | | |u w|o2 a b2|c0 y0 n0| |f0 a0| | |]; simpl; auto.
+    + left. unfold wrapped. simpl. rewrite Z.geb_leb. apply Z.leb_le. pose proof (op_level_pos u).
+      destruct HT as [[E _]|E]; subst T; unfold LPostfix, LNew; lia.
+    + left. unfold wrapped. simpl. rewrite Z.geb_leb. apply Z.leb_le. pose proof (op_level_pos o2).
+      destruct HT as [[E _]|E]; subst T; unfold LPostfix, LNew; lia.
+    + left. destruct HT as [[E _]|E]; subst T; reflexivity.
+    + destruct HT as [[E HL]|E]; subst T; [right; exact HL | left; reflexivity].
+  - apply Z.leb_le. assert (HT19 : 19 <= T <= 20) by (destruct HT as [[E _]|E]; subst T; unfold LPostfix, LNew; lia).
+    unfold PrintParse.ll_of. destruct (wrapped T t) eqn:W; [unfold S_Call, S_Member; lia|].
+    unfold wrapped in W.
+    destruct t as [| | | |u w|o2 a b2|c0 y0 n0| |f0 a0|f0 a0| |]; simpl in *; unfold S_Member, S_Call in *; try lia.
+    + rewrite Z.geb_leb in W. apply Z.leb_gt in W. pose proof (op_level_pos u). lia.
+    + rewrite Z.geb_leb in W. apply Z.leb_gt in W. pose proof (op_level_pos o2). lia.
+    + rewrite Z.geb_leb in W. apply Z.leb_gt in W. unfold LConditional in W. lia.
+    + unfold PrintParse.new_parens. replace (T >=? LPostfix) with true by (symmetry; rewrite Z.geb_leb; apply Z.leb_le; unfold LPostfix; lia).
+      rewrite orb_true_r. unfold S_Member. lia.
+Qed.
+
+Lemma tgt_level_cases P L : (L < S_Call \/ P = LNew) ->
+  (tgt_level P = LPostfix /\ L < S_Call) \/ tgt_level P = LNew.
+Proof.
+  intros HL. unfold tgt_level. destruct (P =? LNew) eqn:E; [right; reflexivity|].
+  left. split; [reflexivity|]. apply Z.eqb_neq in E. destruct HL as [HL|HL]; [exact HL | contradiction].
+Qed.
+
+Lemma operand17 L t : wf t -> L < S_Update -> lv_ok L (LPrefix - 1) t.
+Proof.
+  intros Hw HL. destruct t as [| | | |u w|o2 a b2|c0 y0 n0| |f0 a0| | |]; simpl; auto.
+  - left. unfold wrapped. simpl. rewrite Z.geb_leb. apply Z.leb_le.
+    destruct Hw as (_ & _ & Hk & _). destruct (bin_level o2 Hk) as (Hle & _). unfold LPrefix. lia.
+  - right. unfold S_Update, S_Call in *. lia.
 Qed.
 
 Lemma colon_stop M r : head_stop M (TP [58] :: r) = true /\ fol LYield (TP [58] :: r) = true.
 Proof. split; reflexivity. Qed.
 Lemma rbrack_stop M r : head_stop M (TP [93] :: r) = true /\ fol 0 (TP [93] :: r) = true.
 Proof. split; reflexivity. Qed.
+Lemma close_stop M r : head_stop M (TP [41] :: r) = true /\ fol LComma (TP [41] :: r) = true.
+Proof. split; reflexivity. Qed.
+Lemma comma_stop r : head_stop 3 (TP [44] :: r) = true /\ fol LComma (TP [44] :: r) = true
+  /\ is_close (TP [44]) = false /\ is_comma (TP [44]) = true.
+Proof. repeat split; reflexivity. Qed.
 
-Theorem print_parse_gen : forall e, wf e -> cnf e -> Gen e.
+(* below level 19 the token after an expression is none of . [ ( *)
+Lemma fol_no_member P rest : fol P rest = true -> P < LPostfix ->
+  head_stop S_Call rest = true /\ (match rest with p :: _ => is_open p = false | [] => True end).
 Proof.
-  induction e as [s|s|b f|t IHt s|o v IHv|o l IHl r IHr|c IHc y IHy n IHn|t IHt i IHi]; intros Hwf Hcn.
+  intros H HP. destruct rest as [|t r]; [split; [reflexivity | exact I]|]. simpl in *.
+  destruct (is_dot t); [apply Z.leb_le in H; lia|].
+  destruct (is_lbrack t); [apply Z.leb_le in H; lia|].
+  destruct (is_open t); [apply Z.leb_le in H; lia|]. simpl. split; [|reflexivity].
+  apply andb_true_iff. split; [apply andb_true_iff; split|].
+  - destruct (is_quest t); reflexivity.
+  - destruct (postfix_op t); reflexivity.
+  - destruct (binary_op t) eqn:Eb; [|reflexivity]. apply Z.leb_le. rewrite spec_level_is_op_level.
+    pose proof (op_level_pos o). unfold S_Call. lia.
+Qed.
+
+Definition Both (e : expr) : Prop := (wf e -> cnf e -> Gen e) /\ (wfa e -> cnf e -> GenArgs e).
+
+Theorem print_parse_both : forall e, Both e.
+Proof.
+  induction e as [s|s|b f|t IHt s|o v IHv|o l IHl r IHr|c IHc y IHy n IHn|t IHt i IHi|f IHf a IHa|f IHf a IHa| |x IHx r IHr];
+    (split; [intros Hwf Hcn; try (destruct Hwf; fail) | intros Hwa Hcn; try (destruct Hwa; fail)]).
   - (* identifier *)
-    intros P L rest res HP HL Hlv Hf Hs. simpl in *. destruct Hwf as [_ Hr].
-    apply (E_atom L (TId s) rest (EId s)); [apply find_op_word; exact Hr | simpl; rewrite Hr; reflexivity | exact Hs].
-  - intros P L rest res HP HL Hlv Hf Hs. simpl in *.
-    apply (E_atom L (TNum s) rest (ENum s)); [apply find_op_num | reflexivity | exact Hs].
-  - intros P L rest res HP HL Hlv Hf Hs. simpl in *.
-    apply (E_atom L (TRe b f) rest (ERe b f)); [apply find_op_re | reflexivity | exact Hs].
+    intros P L rest res HP HL HL2 Hlv Hf Hs. simpl in *. destruct Hwf as [_ Hr].
+    apply (E_atom L (TId s) rest (EId s)); [apply is_new_word; exact Hr | apply find_op_word; exact Hr | simpl; rewrite Hr; reflexivity | exact Hs].
+  - intros P L rest res HP HL HL2 Hlv Hf Hs. simpl in *.
+    apply (E_atom L (TNum s) rest (ENum s)); [reflexivity | apply find_op_num | reflexivity | exact Hs].
+  - intros P L rest res HP HL HL2 Hlv Hf Hs. simpl in *.
+    apply (E_atom L (TRe b f) rest (ERe b f)); [reflexivity | apply find_op_re | reflexivity | exact Hs].
   - (* member access *)
-    intros P L rest res HP HL Hlv Hf Hs. destruct Hwf as (Hwt & Hs1 & Hs2). simpl in Hcn.
-    cbn [print_items]. rewrite toks_app, <- app_assoc. change (toks [IDot s]) with [TP [46]; TId s]. simpl app.
-    destruct (target19 L t) as [Hlt Hll].
-    apply (IHt Hwt Hcn LPostfix L); try assumption.
-    + unfold LPostfix. lia.
-    + reflexivity.
+    intros P L rest res HP HL HL2 Hlv Hf Hs. destruct Hwf as (Hwt & Hs1 & Hs2). simpl in Hcn.
+    cbn [Token.print_items]. rewrite toks_app, <- app_assoc. change (toks [IDot s]) with [TP [46]; TId s]. simpl app.
+    destruct (targetT L (tgt_level P) t (tgt_level_cases P L HL)) as [Hlt Hll].
+    apply (proj1 IHt Hwt Hcn (tgt_level P) L); try assumption.
+    + unfold tgt_level. destruct (P =? LNew); unfold LNew, LPostfix; lia.
+    + unfold tgt_level. destruct (P =? LNew) eqn:E; [right; reflexivity|]. left.
+      destruct HL as [HL|HL]; [exact HL|]. apply Z.eqb_neq in E. contradiction.
+    + unfold tgt_level. destruct (P =? LNew); reflexivity.
     + apply S_dot; [reflexivity | exact Hll | exact Hs].
   - (* unary *)
     apply gen_of_unw; [reflexivity|].
-    intros P L rest res HP HPl HL Hlv Hf Hs. destruct Hwf as (Hwv & Hku & Hupd). simpl in Hcn.
-    rewrite body_un. simpl lvl in *. simpl norm in Hs.
+    intros Pb P L rest res HP HPl _ HL HL2 Hlv Hf Hs. destruct Hwf as (Hwv & Hku & Hupd). simpl in Hcn.
+    rewrite body_un. simpl lvl in *. simpl norm in Hs. simpl PrintParse.strat in Hs.
+    assert (HL19 : L < S_Update).
+    { destruct Hlv as [W|W]; [|exact W]. unfold wrapped in W. simpl in W. rewrite Z.geb_leb in W. apply Z.leb_le in W. lia. }
     destruct (op_kind o) eqn:Ek.
     + (* prefix *)
-      destruct (pre_tok o Ek) as [T1 T2]. rewrite (pre_level o Ek) in *.
+      destruct (pre_tok o Ek) as (T0 & T1 & T2). rewrite (pre_level o Ek) in *.
       rewrite toks_app, <- app_assoc. change (toks [IOp o]) with (toks_of (IOp o) ++ []). rewrite T2. simpl app.
-      apply (E_prefix L (op_tok o) _ o (norm v) rest res T1); [| |exact Hs].
-      * apply (IHv Hwv Hcn (LPrefix - 1) S_Unary); try (unfold LPrefix, S_Unary, S_Update; lia).
-        -- apply operand17. exact Hwv.
+      apply (E_prefix L (op_tok o) _ o (norm v) rest res T0 T1); [apply Z.leb_gt; unfold S_New, S_Update in *; lia| | |exact Hs].
+      * apply (proj1 IHv Hwv Hcn (LPrefix - 1) S_Unary); try (unfold LPrefix, S_Unary, S_Update, S_Call; lia).
+        -- apply operand17; [exact Hwv | unfold S_Unary, S_Update; lia].
         -- apply (fol_weaken P); [unfold LPrefix, S_Unary in *; lia | exact Hf].
         -- apply S_stop. apply (fol_stop P); [exact Hf | unfold LPrefix, S_Unary in *; lia | unfold S_Unary in *; lia|].
            intros o' Hk' _. apply Z.leb_le. rewrite spec_level_is_op_level. destruct (bin_level o' Hk'). unfold S_Unary. lia.
@@ -146,24 +214,28 @@ Proof.
       destruct (post_tok o Ek) as (T1 & T2 & T3). destruct (post_level o Ek) as [El Eu]. rewrite El in *.
       specialize (Hupd Eu). destruct (target_shape v Hupd) as [Hcv Hlv'].
       rewrite toks_app, <- app_assoc. change (toks [IOp o]) with (toks_of (IOp o) ++ []). rewrite T3. simpl app.
-      apply (IHv Hwv Hcn (LPostfix - 1) L); try assumption.
+      apply (proj1 IHv Hwv Hcn (LPostfix - 1) L); try assumption.
       * unfold LPostfix. lia.
+      * left. unfold S_Update, S_Call in *. lia.
       * destruct v; simpl in *; auto; discriminate.
       * rewrite (fol_post o _ _ Ek). reflexivity.
-      * apply (S_post L (norm v) _ (op_tok o) o rest res T1 T2); [apply Z.leb_gt; exact HL| |exact Hs].
-        rewrite is_target_norm, Hupd. unfold ll_of, wrapped. rewrite Hcv. simpl. rewrite Hlv'. reflexivity.
+      * apply (S_post L (norm v) _ (op_tok o) o rest res T1 T2); [apply Z.leb_gt; exact HL19| |exact Hs].
+        rewrite is_target_norm, Hupd. unfold PrintParse.ll_of, wrapped. rewrite Hcv. simpl.
+        destruct v; try discriminate; reflexivity.
     + congruence.
   - (* binary *)
     apply gen_of_unw; [reflexivity|].
-    intros P L rest res HP HPl HL Hlv Hf Hs. destruct Hwf as (Hwl & Hwr & Hk & Hta). destruct Hcn as (Hcl & Hcr & Hcm).
-    rewrite body_bin. simpl lvl in *. rewrite (norm_bin o l r Hcm) in Hs.
+    intros Pb P L rest res HP HPl _ HL HL2 Hlv Hf Hs. destruct Hwf as (Hwl & Hwr & Hk & Hta). destruct Hcn as (Hcl & Hcr & Hcm).
+    rewrite body_bin. simpl lvl in *. rewrite (norm_bin o l r Hcm) in Hs. simpl PrintParse.strat in Hs.
     destruct (bin_tok o Hk) as (T1 & T2 & T3 & T4). destruct (bin_level o Hk) as (B1 & B2 & B3).
     assert (HLo : L < op_level o).
     { destruct Hlv as [W|W]; [|exact W]. unfold wrapped in W. simpl in W. rewrite Z.geb_leb in W. apply Z.leb_le in W. lia. }
+    assert (HLc : L < S_Call) by (unfold S_Call; lia).
     rewrite !toks_app, <- !app_assoc. change (toks [IOp o]) with (toks_of (IOp o) ++ []). rewrite T4. simpl app.
     pose proof (left_lvl_ge o l) as Hll. pose proof (right_lvl_ge o r Hk) as Hrl.
-    apply (IHl Hwl Hcl (left_lvl o l) L); try assumption; try lia.
-    + destruct l as [| | | | |o2 a b2|c0 y0 n0|]; simpl; auto.
+    apply (proj1 IHl Hwl Hcl (left_lvl o l) L); try assumption; try lia.
+    + destruct l as [| | | |u w|o2 a b2|c0 y0 n0| |f0 a0| | |]; simpl; auto.
+      * right. unfold S_Update. lia.
       * unfold wrapped. simpl. destruct (left_lvl o (EBin o2 a b2) >=? op_level o2) eqn:E; [left; reflexivity|].
         right. rewrite Z.geb_leb in E. apply Z.leb_gt in E. unfold lpl in Hll. destruct (is_right_assoc o); lia.
       * (* a conditional as left operand: parenthesised except under a comma *)
@@ -177,7 +249,7 @@ Proof.
     + apply (S_bin L (norm l) _ (op_tok o) o _ (norm r) rest res T1 T2 T3).
       * rewrite spec_level_is_op_level. apply Z.leb_gt. exact HLo.
       * apply left_ok_print; assumption.
-      * apply (IHr Hwr Hcr (right_lvl o r) (right_level o)); try (unfold S_Update; lia).
+      * apply (proj1 IHr Hwr Hcr (right_lvl o r) (right_level o)); try (unfold S_Call; lia).
         -- apply right_ok_print; assumption.
         -- apply (fol_weaken P); [lia | exact Hf].
         -- apply S_stop. apply (fol_stop P); [exact Hf | unfold LPrefix; lia | |].
@@ -186,45 +258,114 @@ Proof.
       * rewrite spec_level_is_op_level. exact Hs.
   - (* conditional *)
     apply gen_of_unw; [reflexivity|].
-    intros P L rest res HP HPl HL Hlv Hf Hs. destruct Hwf as (Hwc & Hwy & Hwn). destruct Hcn as (Hcc & Hcy & Hcn).
-    rewrite body_cond. simpl lvl in *. simpl norm in Hs.
+    intros Pb P L rest res HP HPl _ HL HL2 Hlv Hf Hs. destruct Hwf as (Hwc & Hwy & Hwn). destruct Hcn as (Hcc & Hcy & Hcn).
+    rewrite body_cond. simpl lvl in *. simpl norm in Hs. simpl PrintParse.strat in Hs.
     assert (HL5 : L < LConditional /\ P <= LYield).
     { destruct Hlv as [W|W]; [|exact W]. unfold wrapped in W. simpl in W. rewrite Z.geb_leb in W. apply Z.leb_le in W. lia. }
     destruct HL5 as [HL5 HP3].
+    assert (HLc : L < S_Call) by (unfold S_Call, LConditional in *; lia).
     rewrite !toks_app, <- !app_assoc. change (toks [IQuest]) with [TP [63]]. change (toks [IColon]) with [TP [58]]. simpl app.
-    apply (IHc Hwc Hcc LConditional L); try assumption.
+    apply (proj1 IHc Hwc Hcc LConditional L); try assumption.
     + unfold LConditional. lia.
-    + destruct c as [| | | | |o2 a b2|c0 y0 n0|]; simpl; auto.
+    + left. exact HLc.
+    + destruct c as [| | | |u w|o2 a b2|c0 y0 n0| |f0 a0| | |]; simpl; auto.
+      * right. unfold S_Update, LConditional in *. lia.
       * unfold wrapped. simpl. destruct (LConditional >=? op_level o2) eqn:E; [left; reflexivity|].
         right. rewrite Z.geb_leb in E. apply Z.leb_gt in E. lia.
     + reflexivity.
     + destruct (colon_stop 3 (toks (print_items LYield n) ++ rest)) as [Cs Cf].
-      destruct (lv_ok_low y) as [_ Ly]. destruct (lv_ok_low n) as [_ Ln].
+      destruct (lv_ok_low y) as (_ & Ly & _). destruct (lv_ok_low n) as (_ & Ln & _).
       apply (S_cond L (norm c) _ (TP [63]) _ (norm y) (TP [58]) (toks (print_items LYield n) ++ rest) (norm n) rest res);
         try reflexivity.
       * apply Z.leb_gt. unfold S_Cond, LConditional in *. lia.
-      * apply Z.ltb_lt. unfold ll_of. destruct (wrapped LConditional c) eqn:W; [reflexivity|].
-        unfold wrapped in W. destruct (compound c) eqn:Ec; [|rewrite (lvl_atom c Ec); reflexivity].
-        simpl in W. rewrite Z.geb_leb in W. apply Z.leb_gt in W. unfold S_Cond, LConditional in *. lia.
-      * apply (IHy Hwy Hcy LYield 3); try assumption; try (unfold LYield, S_Update; lia).
+      * apply Z.ltb_lt. pose proof (ll_of_ge mw LConditional c). unfold S_Cond, S_Member, LConditional in *. lia.
+      * apply (proj1 IHy Hwy Hcy LYield 3); try assumption; try (unfold LYield, S_Call; lia).
         apply S_stop. exact Cs.
-      * apply (IHn Hwn Hcn LYield 3); try assumption; try (unfold LYield, S_Update; lia).
+      * apply (proj1 IHn Hwn Hcn LYield 3); try assumption; try (unfold LYield, S_Call; lia).
         -- apply (fol_weaken P); [exact HP3 | exact Hf].
         -- apply S_stop. apply (fol_stop P); [exact Hf | unfold LPrefix, LYield in *; lia | unfold LYield in *; lia|].
            intros o' Hk' Hl'. apply low_ops_stop; [exact Hk' | lia].
       * exact Hs.
   - (* index access *)
-    intros P L rest res HP HL Hlv Hf Hs. destruct Hwf as (Hwt & Hwi). destruct Hcn as (Hct & Hci).
-    cbn [print_items]. rewrite !toks_app, <- !app_assoc. change (toks [ILBrack]) with [TP [91]]. change (toks [IRBrack]) with [TP [93]]. simpl app.
-    destruct (target19 L t) as [Hlt Hll].
-    apply (IHt Hwt Hct LPostfix L); try assumption.
-    + unfold LPostfix. lia.
-    + reflexivity.
-    + destruct (rbrack_stop 0 rest) as [Rs Rf]. destruct (lv_ok_low i) as [Li _].
+    intros P L rest res HP HL HL2 Hlv Hf Hs. destruct Hwf as (Hwt & Hwi). destruct Hcn as (Hct & Hci).
+    cbn [Token.print_items]. rewrite !toks_app, <- !app_assoc. change (toks [ILBrack]) with [TP [91]]. change (toks [IRBrack]) with [TP [93]]. simpl app.
+    destruct (targetT L (tgt_level P) t (tgt_level_cases P L HL)) as [Hlt Hll].
+    apply (proj1 IHt Hwt Hct (tgt_level P) L); try assumption.
+    + unfold tgt_level. destruct (P =? LNew); unfold LNew, LPostfix; lia.
+    + unfold tgt_level. destruct (P =? LNew) eqn:E; [right; reflexivity|]. left.
+      destruct HL as [HL|HL]; [exact HL|]. apply Z.eqb_neq in E. contradiction.
+    + unfold tgt_level. destruct (P =? LNew); reflexivity.
+    + destruct (rbrack_stop 0 rest) as [Rs Rf]. destruct (lv_ok_low i) as (Li & _).
       apply (S_index L (norm t) _ (TP [91]) _ (norm i) (TP [93]) rest res); try reflexivity; try assumption.
-      apply (IHi Hwi Hci 0 0); try assumption; try (unfold S_Update; lia).
+      apply (proj1 IHi Hwi Hci 0 0); try assumption; try (unfold S_Call; lia).
       apply S_stop. exact Rs.
+  - (* call *)
+    apply gen_of_unw; [reflexivity|].
+    intros Pb P L rest res HP HPl _ HL HL2 Hlv Hf Hs. destruct Hwf as (Hwf' & Hwa). destruct Hcn as (Hcf & Hca).
+    rewrite body_call. simpl lvl in *. simpl norm in Hs. simpl PrintParse.strat in Hs.
+    assert (HLc : L < S_Call).
+    { destruct Hlv as [W|W]; [|exact W]. unfold wrapped in W. simpl in W. rewrite Z.geb_leb in W. apply Z.leb_le in W. lia. }
+    rewrite !toks_app, <- !app_assoc. change (toks [ICallOpen]) with [TP [40]]. change (toks [IClose]) with [TP [41]]. simpl app.
+    destruct (targetT L LPostfix f (or_introl (conj eq_refl HLc))) as [Hlt Hll].
+    apply (proj1 IHf Hwf' Hcf LPostfix L); try assumption.
+    + unfold LPostfix. lia.
+    + left. exact HLc.
+    + reflexivity.
+    + apply (S_call L (norm f) _ (TP [40]) _ (norm a) rest res); try reflexivity.
+      * apply Z.leb_gt. exact HLc.
+      * exact Hll.
+      * apply (proj2 IHa Hwa Hca).
+      * exact Hs.
+  - (* new *)
+    apply gen_of_unw; [reflexivity|].
+    intros Pb P L rest res HP HPl HPb HL HL2 Hlv Hf Hs. destruct Hwf as (Hwf' & Hwa). destruct Hcn as (Hcf & Hca).
+    specialize (HPb f a eq_refl).
+    unfold PrintParse.body. simpl norm in Hs. simpl PrintParse.strat in Hs.
+    rewrite !toks_app, <- !app_assoc. change (toks [INew]) with [TId [110; 101; 119]]. simpl app.
+    destruct (targetT S_Call LNew f (or_intror eq_refl)) as [Hlt _].
+    destruct (PrintParse.new_parens mw Pb a) eqn:Enp.
+    + (* with an argument list *)
+      change (toks (ICallOpen :: print_items LComma a ++ [IClose])) with (TP [40] :: toks (print_items LComma a ++ [IClose])).
+      rewrite toks_app. change (toks [IClose]) with [TP [41]]. simpl app. rewrite <- app_assoc. simpl app.
+      apply (E_new_args L (TId [110; 101; 119]) _ (norm f) (TP [40]) (toks (print_items LComma a) ++ TP [41] :: rest) (norm a) rest res); try reflexivity.
+      * apply (proj1 IHf Hwf' Hcf LNew S_Call); try assumption; try (unfold LNew, S_Call; lia).
+        -- reflexivity.
+        -- apply S_stop. reflexivity.
+      * apply (proj2 IHa Hwa Hca).
+      * exact Hs.
+    + (* "new f" without parentheses: minified, no arguments, below LPostfix *)
+      unfold PrintParse.new_parens in Enp. apply orb_false_iff in Enp as [Enp Ep19]. apply orb_false_iff in Enp as [_ Eha].
+      rewrite Z.geb_leb in Ep19. apply Z.leb_gt in Ep19.
+      assert (a = ANil) by (destruct a; try (destruct Hwa; fail); [reflexivity | discriminate]). subst a.
+      assert (HPP : P = Pb) by (destruct HPb as [E|E]; [exact E | lia]). subst Pb.
+      simpl app. destruct (fol_no_member P rest Hf Ep19) as [Hst Hno].
+      apply (E_new_bare L (TId [110; 101; 119]) _ (norm f) rest res); try reflexivity.
+      * apply (proj1 IHf Hwf' Hcf LNew S_Call); try assumption; try (unfold LNew, S_Call; lia).
+        -- apply (fol_weaken P); [unfold LNew, LPostfix in *; lia | exact Hf].
+        -- apply S_stop. exact Hst.
+      * exact Hno.
+      * exact Hs.
+  - (* no arguments *)
+    intro rest. simpl. apply A_nil. reflexivity.
+  - (* argument list *)
+    intro rest. destruct Hwa as (Hwx & Hwr). destruct Hcn as (Hcx & Hcr).
+    cbn [Token.print_items]. simpl norm. destruct (lv_ok_low x) as (_ & _ & Lx).
+    destruct r as [| | | | | | | | | | |x2 r2]; try (destruct Hwr; fail).
+    + (* last argument *)
+      rewrite app_nil_r. destruct (close_stop 3 rest) as [Cs Cf].
+      apply (A_last _ (norm x) (TP [41]) rest); [|reflexivity].
+      apply (proj1 IHx Hwx Hcx LComma 3); try assumption; try (unfold LComma, S_Call; lia).
+      apply S_stop. exact Cs.
+    + rewrite !toks_app, <- !app_assoc. change (toks [IOp BComma]) with [TP [44]]. simpl app.
+      destruct (comma_stop (toks (print_items LComma (ACons x2 r2)) ++ TP [41] :: rest)) as (Ks & Kf & Kc & Kk).
+      apply (A_more _ (norm x) (TP [44]) (toks (print_items LComma (ACons x2 r2)) ++ TP [41] :: rest) (norm (ACons x2 r2)) rest); [|exact Kc | exact Kk|].
+      * apply (proj1 IHx Hwx Hcx LComma 3); try assumption; try (unfold LComma, S_Call; lia).
+        apply S_stop. exact Ks.
+      * apply (proj2 IHr Hwr Hcr).
 Qed.
+
+Theorem print_parse_gen : forall e, wf e -> cnf e -> Gen e.
+Proof. intros e. apply (proj1 (print_parse_both e)). Qed.
 
 (* ---- whole expressions ---- *)
 Lemma parse_fuel_mono n m ts e : (n <= m)%nat -> parse_fuel n ts = Some e -> parse_fuel m ts = Some e.
@@ -239,10 +380,13 @@ Proof.
   intros Hwf Hcn.
   destruct (print_parse_gen e Hwf Hcn LLowest 0 [] (norm e, [])) as [n Hn].
   - unfold LLowest. lia.
-  - unfold S_Update. lia.
+  - left. unfold S_Call. lia.
+  - unfold S_Call. lia.
   - apply lv_ok_low.
   - reflexivity.
   - apply S_nil.
   - exists n. intros m Hm. rewrite app_nil_r in Hn. unfold parse_fuel.
     rewrite (parse_expr_mono n m _ _ _ Hm Hn). reflexivity.
 Qed.
+
+End WithMode.
